@@ -756,14 +756,68 @@ big_family(void)
         }
 }
 
+/* Mixed builds (library objects and application with different NDEBUG
+ * settings): do the two sides agree on the layout of the public object types
+ * that cross the boundary?  The library side tells through harness/c19_libside.c,
+ * which is compiled with the library's flags.  The statement does not promise a
+ * layout that is independent of NDEBUG (a debug-only member in rb_iter or in the
+ * ring object is a legitimate design; such a library is built with its
+ * application's setting), so on a mismatch the mixed search is not run: two
+ * probe cases record what was seen, the run is marked non-exhaustive. */
+#if defined(C19_APP_DEBUG) || defined(C19_APP_NDEBUG)
+#define C19_MIXED 1
+size_t c19_lib_sizeof_rb_iter(void);
+size_t c19_lib_alignof_rb_iter(void);
+size_t c19_lib_sizeof_octet_ring(void);
+size_t c19_lib_alignof_octet_ring(void);
+int c19_lib_ndebug(void);
+
+static bool
+layout_probe(void)
+{
+    const bool it_same = c19_lib_sizeof_rb_iter() == sizeof(rb_iter) && c19_lib_alignof_rb_iter() == _Alignof(rb_iter);
+    const bool rg_same = c19_lib_sizeof_octet_ring() == sizeof(octet_ring)
+                         && c19_lib_alignof_octet_ring() == _Alignof(octet_ring);
+#ifdef NDEBUG
+    const int app_ndebug = 1;
+#else
+    const int app_ndebug = 0;
+#endif
+    MC_ANCHOR(c19_lib_ndebug() != app_ndebug, "the mixed build is not mixed: library and application have the same NDEBUG setting");
+    mc_partition(-1, 0);
+    if (mc_case("layout probe: sizeof/alignof(rb_iter) as seen by the library objects vs by the application")) {
+        mc_log("library: %zu/%zu  application: %zu/%zu", c19_lib_sizeof_rb_iter(), c19_lib_alignof_rb_iter(), sizeof(rb_iter),
+               (size_t) _Alignof(rb_iter));
+        mc_end(true, it_same ? "rb_iter-layout-agrees" : "rb_iter-layout-differs");
+    }
+    if (mc_case("layout probe: sizeof/alignof(octet_ring) as seen by the library objects vs by the application")) {
+        mc_log("library: %zu/%zu  application: %zu/%zu", c19_lib_sizeof_octet_ring(), c19_lib_alignof_octet_ring(),
+               sizeof(octet_ring), (size_t) _Alignof(octet_ring));
+        mc_end(true, rg_same ? "ring-object-layout-agrees" : "ring-object-layout-differs");
+    }
+    if (!it_same || !rg_same)
+        mc_cap("layout-ndebug: the layout of %s%s%s depends on NDEBUG (library: %s assertions, application: %s): the mixed build is not a supported configuration of this library, search not run",
+               it_same ? "" : "rb_iter", (!it_same && !rg_same) ? " and " : "", rg_same ? "" : "the ring object",
+               c19_lib_ndebug() ? "without" : "with", app_ndebug ? "without" : "with");
+    return it_same && rg_same;
+}
+#endif
+
 int
 main(int argc, char **argv)
 {
     mc_init(argc, argv);
 #ifdef C19_LIGHT
-    const size_t maxcap = 3;
+    size_t maxcap = 3;
 #else
-    const size_t maxcap = mc_thorough() ? 10 : 5;
+    size_t maxcap = mc_thorough() ? 10 : 5;
+#endif
+    bool gated = false;
+#ifdef C19_MIXED
+    if (!layout_probe()) {
+        gated = true;
+        maxcap = 0;
+    }
 #endif
     for (size_t cap = 1; cap <= maxcap; ++cap) {
         /* one partition per (capacity, element type): independent searches */
@@ -785,6 +839,13 @@ main(int argc, char **argv)
 #ifndef C19_LIGHT
     big_family();
 #endif
+#ifdef C19_MIXED
+    /* the orchestrator cannot require the search's outcome classes of a harness
+     * that may legitimately not run: a process that did search guards itself */
+    if (!gated && mc.only < 0 && mc.violations == 0 && mc.evaluations > 2 && mc.noutcomes < 6)
+        mc_broken("mixed build: the search of this shard saw only %d outcome classes", mc.noutcomes);
+#endif
+    (void)gated;
     /* vacuity is guarded by the orchestrator's required outcome classes
      * (put-evicts, put-dropped, get-empty, get-oldest, clear, ...): the
      * searches are spread over the shards, so no single process sees all */
@@ -803,6 +864,8 @@ main(int argc, char **argv)
              "with", "with",
 #endif
              maxcap);
+    if (gated)
+        snprintf(bound, sizeof bound, "build variant not run: library objects and application disagree on the layout of rb_iter / the ring object (layout depends on NDEBUG); two probe cases only");
     if (0)
 #endif
     snprintf(bound, sizeof bound,
